@@ -223,6 +223,8 @@ def timeline(case, obs):
                     tl.append(("tcp_write", h, cmd[1], cmd[2], k))
                 elif cmd[0] == "tcp_shutdown":
                     tl.append(("tcp_shutdown", h, cmd[1], None, k))
+                elif cmd[0] == "tcp_drop_readers":
+                    tl.append(("tcp_drop", h, cmd[1], None, k))
                 else:
                     for a, b in for_pairs(sel_hosts(cmd[1], n), sel_hosts(cmd[2], n)):
                         tl.append(("call", cmd[0], a, b, (k + 1) * tick))
@@ -360,6 +362,11 @@ def gen_hold_script(rng, nhosts=None):
             ctl.append(["release", sa, sb])
             for x, y in for_pairs(sel_hosts(sa, n), sel_hosts(sb, n)):
                 held.discard((min(x, y), max(x, y)))
+        if held and rng.random() < 0.15:
+            # release immediately followed by hold (before the next tick): released messages are re-held
+            a, b = rng.choice(sorted(held))
+            ctl.append(["release", rand_sel(rng, a), rand_sel(rng, b)])
+            ctl.append(["hold", rand_sel(rng, a), rand_sel(rng, b)])
         if rng.random() < 0.5:
             ctl.append(["links"])
         if held and rng.random() < 0.5:
@@ -502,6 +509,15 @@ def gen_tcp_script(rng, flavour):
             lst = hosts.setdefault(str(h), [])
             lst.insert(rng.randrange(len(lst) + 1), [rng.choice(calls), rand_sel(rng, a), rand_sel(rng, b)])
         steps.append({"ctl": ctl, "hosts": hosts})
+    if flavour == "partition" and conns and rng.random() < 0.5:
+        # the accepting side drops its end while its direction towards the writer is cut: nothing
+        # it sends (FIN, RST replies) may reach the writer, whose writes must keep being accepted
+        c = rng.choice(sorted(conns))
+        a, b = conns[c]
+        steps.append({"ctl": [["repair", {"h": a}, {"h": b}], ["partition_oneway", rand_sel(rng, b), rand_sel(rng, a)]], "hosts": {}})
+        steps.append({"ctl": [], "hosts": {str(b): [["tcp_drop_readers", a]]}})
+        for _ in range(rng.randrange(2, 6)):
+            steps.append({"ctl": [], "hosts": {str(a): [["tcp_write", c2, ids.next()] for c2, ab in conns.items() if ab == (a, b)]}})
     if flavour == "hold":
         # close what is still open while (possibly) held, then release everything
         hosts = {}
@@ -527,24 +543,43 @@ def tcp_oracle(case, obs, flavour):
             i, nbytes = detail.split(":")
             if nbytes == "8":
                 wrote[int(i)] = (cid, st)
+    wres = {}
+    for st, h, what, cid, detail in obs.get("tcp_ev", []):
+        if what in ("wrote", "write_err"):
+            wres[int(detail.split(":")[0])] = (what, detail)
     tl = timeline(case, obs)
     explicit, held = {}, {}
     forbidden, parked = {}, {}
+    silent = {}
     for ev in tl:
         if ev[0] == "call":
             _, name, a, b, t = ev
             if name in ("partition", "repair"):
                 for d in ((a, b), (b, a)):
                     explicit[d] = name == "partition"
+                    if name == "repair":
+                        silent.pop((d[1], d[0]), None)
             elif name in ("partition_oneway", "repair_oneway"):
                 explicit[(a, b)] = name == "partition_oneway"
+                if name == "repair_oneway":
+                    silent.pop((b, a), None)
             elif name in ("hold", "release"):
                 held[(min(a, b), max(a, b))] = name == "hold"
                 if name == "release":
                     for i in [i for i, p in parked.items() if p == (min(a, b), max(a, b))]:
                         del parked[i]
+        elif ev[0] == "tcp_drop":
+            _, h, peer, _x, step = ev
+            if explicit.get((h, peer)):
+                silent[(peer, h)] = step      # (writer, reader): the reader went away unseen
         elif ev[0] == "tcp_write":
             _, h, cid, i, step = ev
+            if cid in conns and conns[cid] in silent and i in wres and wres[i][0] == "write_err" and (
+                    "BrokenPipe" in wres[i][1] or "ConnectionReset" in wres[i][1]):
+                a, b = conns[cid]
+                out.append(("TCP write %d on connection %d (h%d->h%d) at step %d failed with %s: h%d dropped its end at step %d "
+                            "while h%d->h%d was explicitly partitioned, so nothing it sends (FIN, RST) may reach h%d" % (
+                                i, cid, a, b, step, wres[i][1].split(":")[1], b, silent[conns[cid]], b, a, a), None))
             if i in wrote and cid in conns:
                 a, b = conns[cid]
                 if explicit.get((a, b)):
